@@ -6,7 +6,6 @@
 package main
 
 import (
-	"context"
 	"crypto/sha256"
 	"errors"
 	"fmt"
@@ -14,7 +13,6 @@ import (
 	"path/filepath"
 	"strings"
 	"sync/atomic"
-	"time"
 
 	"github.com/ARM-software/golang-utils/utils/filesystem"
 
@@ -191,7 +189,7 @@ func osSnapshot(root string) map[string]string {
 }
 
 // runOS executes one entry point once on the OS back end. mode os-cancel-at with k<0: no cancellation.
-func runOS(ep *entryPoint, spec treeSpec, mode, arg string, k int64) (res fsResult, err error) {
+func runOS(ep *entryPoint, spec treeSpec, mode, arg string, k int64, flavour string) (res fsResult, err error) {
 	e, err := newOSEnv(spec, ep.Zip, arg)
 	if err != nil {
 		return res, err
@@ -214,24 +212,20 @@ func runOS(ep *entryPoint, spec treeSpec, mode, arg string, k int64) (res fsResu
 		}
 	}
 	before := osSnapshot(e.base)
-	ctx, cancel := context.WithCancel(context.Background())
-	defer cancel()
-	switch mode {
-	case "os-pre-cancelled":
-		cancel()
-	case "os-pre-deadline":
-		var c2 context.CancelFunc
-		ctx, c2 = context.WithDeadline(context.Background(), time.Now().Add(-time.Second))
-		defer c2()
+	flavour = defaultFlavour(mode, flavour)
+	ctx, endCtx, release := newCtx(flavour, mode != "os-cancel-at")
+	defer release()
+	if mode != "os-cancel-at" {
+		endCtx()
 	}
 	var fired atomic.Bool
 	base := e.sh.Count()
 	e.sh.ResetLog()
 	e.sh.Rec = true
 	e.sh.SetHook(func(op *shim.Op) error {
-		if mode == "os-cancel-at" && op.Seq-base == k {
+		if mode == "os-cancel-at" && op.Seq-base == k && ctx.Err() == nil {
 			fired.Store(true)
-			cancel()
+			endCtx()
 		}
 		if ep.RenameFails && op.Name == "Rename" {
 			return &os.LinkError{Op: "rename", Old: op.Path, New: op.Path2, Err: errCrossDevice}
@@ -283,12 +277,13 @@ func checkOSPre(c fsCase, res fsResult) (fs []failure) {
 		fs = append(fs, failure{"precancelled-mutates:" + tag, fmt.Sprintf("%s on the OS back end (%s) with a context already done issued %d mutating backend operations %v; changes %v (kind returned: %s)",
 			c.EP, c.Arg, res.MutAfter, res.OpsAfter, res.Diff, res.Kind), c})
 	}
+	want := wantKind(c.flavour())
 	switch {
-	case isCancelKind(res.Kind):
-	case c.Arg == argDangling && res.Kind != "nil":
+	case res.Kind == want:
+	case c.Arg == argDangling && res.Kind != "nil" && !isCancelKind(res.Kind):
 		// a dangling argument may legitimately be refused as invalid / not found before anything else happens
 	default:
-		fs = append(fs, failure{"precancelled-wrong-kind:" + tag, fmt.Sprintf("%s on the OS back end (%s) with a context already done returned kind %s (%s), not cancelled/timeout", c.EP, c.Arg, res.Kind, res.Err), c})
+		fs = append(fs, failure{"precancelled-wrong-kind:" + tag, fmt.Sprintf("%s on the OS back end (%s) with a context already done returned kind %s (%s), not %s (context: %s)", c.EP, c.Arg, res.Kind, res.Err, want, c.flavour()), c})
 	}
 	if res.After > opsAfterBound {
 		fs = append(fs, failure{"precancelled-unbounded:" + tag, fmt.Sprintf("%s on the OS back end (%s) with a context already done issued %d backend operations", c.EP, c.Arg, res.After), c})
